@@ -219,6 +219,24 @@ def resource_clauses(view, out):
             if kind == "dyn":
                 s, e = view.start[tid], view.end[tid]
                 out.append((wid, "Worker", "dynamic-span-inside-task", s <= bs <= be <= e, {"task": tid}))
+    # pinned busy bounds of static / selected assignments must be the interval the requirement implies
+    for (tid, rid, dyn, di, eo) in view.reqs:
+        if dyn or not view.sched[tid]:
+            continue
+        d = dd[rid]
+        s, e = view.start[tid], view.end[tid]
+        if d["cls"] == "Worker" and ("bs", tid, rid) in view.leaf:
+            got = (view.leaf[("bs", tid, rid)], view.leaf[("be", tid, rid)])
+            v = got == (s + di, e - eo)
+            if di + eo > e - s:
+                v = None
+            out.append((rid, "Worker", "static-span-as-declared", v, {"task": tid, "delay": bool(di or eo)}))
+        elif d["cls"] == "SelectWorkers":
+            for wref in d["args"]["list_of_workers"]:
+                wid = wref["$"]
+                if view.selected(rid, wid) and ("bs", tid, wid) in view.leaf:
+                    got = (view.leaf[("bs", tid, wid)], view.leaf[("be", tid, wid)])
+                    out.append((wid, "Worker", "selected-span-is-task-span", got == (s, e), {"task": tid}))
     # delay_in + early_out larger than the duration: unspecified
     for (tid, rid, dyn, di, eo) in view.reqs:
         if view.sched[tid] and (di or eo) and di + eo > view.end[tid] - view.start[tid]:
